@@ -418,6 +418,15 @@ def optin_lemmas(ex):
         return z3.Exists([j, j2], z3.And(0 <= j2, j2 < j, j < n, remote(key_at(P, j)), plain(key_at(P, j2))))
     warn_only_if_inconsistent.__doc__ = 'Warning is raised only if some class with a remote-aware __getstate__ is preceded in the MRO by one whose __getstate__ cannot take the flag'
 
+    def warn_leaves_no_verdict(c):
+        ex_ = c.ex
+        cache = ex_.heap[c.env['cache'].addr]
+        sup = ex_.heap[c.env['sup'].addr].seq
+        return z3.And(warn_only_if_inconsistent(c), cache.dom == c.env['cache_dom0'], cache.map == c.env['cache_map0'], sup == c.env['sup0'].e)
+    warn_leaves_no_verdict.__doc__ = (warn_only_if_inconsistent.__doc__ + '; and a rejection leaves NO verdict behind - neither in the cache nor in supported_classes - so '
+                                      'that the same class is rejected again the next time it is dumped (a cached False would let the second dump fall back to the '
+                                      'standard reduce and serialise the object silently, without the remote flag)')
+
     def su(ex_, env):
         setup(ex_, env)
         # the sequence the loop runs over is t.__mro__ without its last element
@@ -428,7 +437,7 @@ def optin_lemmas(ex):
         ex_.ghost['__mro_prefix__'] = pre
     con = Contract(CHK, lid='L3', name='C13.L3 what opting in means: __check_type_cached against the specification over the MRO (reduce hooks win, a remote-aware __getstate__ opts in, inconsistent chains warn)',
                    params={'cls': ('const', None), 't': ('const', None)}, self_class=META, setup=su,
-                   ensures=[post], raises={'Warning': warn_only_if_inconsistent}, raises_only=['Warning'],
+                   ensures=[post], raises={'Warning': warn_leaves_no_verdict}, raises_only=['Warning'],
                    loops={0: Loop(invariant=[prefix_inv], variant='__n__ - __i__', modifies=[],
                                   locals={'allow_remote': 'bool', 'has_remote': 'bool', 'first_not_remote': ty_hint})},
                    options={'keyerror_forks': True})
